@@ -11,7 +11,14 @@
                                                         C08_append_self, C08_remove_front, C08_remove_back,
                                                         C08_reserve, C08_clear; with a source pointer into
                                                         the Buffer itself: C08_append_at, C08_assign_at,
-                                                        C08_prepend_at
+                                                        C08_prepend_at.  reserve is a hint: the reference
+                                                        queue stays as it is for every argument, and for an
+                                                        argument no allocation can follow (hint_unsat) the
+                                                        reference accepts both outcomes; the model, like the
+                                                        code, gives up there (C08_reserve_hint) - so the
+                                                        history theorems carry the alternative "or the model
+                                                        stopped at such a hint", and C08_refines_queue_nohint
+                                                        is the exact statement for histories without one
    "whenever it owns its storage one readable zero      C08_terminator (every variable of every reachable
     byte follows the last data byte"                    world: the cell at [stop] is inside the allocation
                                                         of capacity+1 cells and holds 0)
@@ -26,7 +33,8 @@
                                                         the history (operand variable missing, a data range
                                                         of more than max_bytes bytes, a pointer "inside v"
                                                         that is not), and AllocFail, exactly when the
-                                                        reference says SUnsat (see "sizes").  Foreign memory
+                                                        reference says SUnsat (see "sizes") or the operation
+                                                        is a reserve that cannot be followed.  Foreign memory
                                                         has no write operation in the model at all: [BReg r]
                                                         carries [r] unchanged (C08_no_foreign_write).
    "... for all sizes"                                  every caller-chosen usize is an N (2^64-1 included).
@@ -108,12 +116,14 @@ Print Assumptions C08_sums_do_not_wrap.
 (* ---- (1) memory safety -------------------------------------------------------------------------- *)
 
 Theorem C08_memory_safe_step : forall w o e, winv w -> step w o = Err e ->
-  (e = BadArg /\ spec_step (map exposed w) o = SReject) \/ (e = AllocFail /\ spec_step (map exposed w) o = SUnsat).
+  (e = BadArg /\ spec_step (map exposed w) o = SReject) \/
+  (e = AllocFail /\ (spec_step (map exposed w) o = SUnsat \/ hint_unsat o = true)).
 Proof. exact step_safe_lemma. Qed.
 Print Assumptions C08_memory_safe_step.
 
 Theorem C08_memory_safe : forall ops e, run [] ops = Err e ->
-  (e = BadArg /\ spec_run [] ops = SReject) \/ (e = AllocFail /\ spec_run [] ops = SUnsat).
+  (e = BadArg /\ spec_run [] ops = SReject) \/
+  (e = AllocFail /\ (spec_run [] ops = SUnsat \/ existsb hint_unsat ops = true)).
 Proof. exact run_safe_lemma. Qed.
 Print Assumptions C08_memory_safe.
 
@@ -130,16 +140,33 @@ Print Assumptions C08_no_foreign_write.
 
 (* ---- (2) refinement to the reference byte queue ------------------------------------------------- *)
 
+(* one step.  Where the reference has an answer the model has the same one - except for a reserve that no
+   allocation can follow (hint_unsat): the reference keeps the queues (the text says nothing else about it) and
+   allows an implementation to stop; the model, like the code, stops with a failed allocation *)
 Theorem C08_refines_queue_step : forall w qs o, winv w -> wref w qs ->
   match spec_step qs o with
-  | SOk (qs', a') => exists w' a, step w o = Ok (w', a) /\ winv w' /\ wref w' qs' /\ ans_ref a a'
+  | SOk (qs', a') => if hint_unsat o then step w o = Err AllocFail
+                     else exists w' a, step w o = Ok (w', a) /\ winv w' /\ wref w' qs' /\ ans_ref a a'
   | SReject => step w o = Err BadArg
   | SUnsat => step w o = Err AllocFail
   end.
 Proof. exact step_sim_lemma. Qed.
 Print Assumptions C08_refines_queue_step.
 
+(* the hint itself: the reference leaves every queue as it is and answers nothing; the model gives up *)
+Theorem C08_reserve_hint : forall w qs o, winv w -> wref w qs -> hint_unsat o = true ->
+  match spec_step qs o with
+  | SOk (qs', a') => qs' = qs /\ a' = None /\ step w o = Err AllocFail
+  | SReject => step w o = Err BadArg
+  | SUnsat => False
+  end.
+Proof. exact step_hint. Qed.
+Print Assumptions C08_reserve_hint.
+
+(* histories: either the model stopped at a hint that cannot be followed (the reference goes on from there), or
+   the reference decides the outcome *)
 Theorem C08_refines_queue : forall ops w qs, winv w -> wref w qs ->
+  (run w ops = Err AllocFail /\ existsb hint_unsat ops = true) \/
   match spec_run qs ops with
   | SOk (qs', rs') => exists w' rs, run w ops = Ok (w', rs) /\ winv w' /\ wref w' qs' /\ Forall2 ans_ref rs rs'
   | SReject => run w ops = Err BadArg
@@ -147,6 +174,15 @@ Theorem C08_refines_queue : forall ops w qs, winv w -> wref w qs ->
   end.
 Proof. exact run_sim_lemma. Qed.
 Print Assumptions C08_refines_queue.
+
+Theorem C08_refines_queue_nohint : forall ops w qs, winv w -> wref w qs -> existsb hint_unsat ops = false ->
+  match spec_run qs ops with
+  | SOk (qs', rs') => exists w' rs, run w ops = Ok (w', rs) /\ winv w' /\ wref w' qs' /\ Forall2 ans_ref rs rs'
+  | SReject => run w ops = Err BadArg
+  | SUnsat => run w ops = Err AllocFail
+  end.
+Proof. exact run_sim_nohint_lemma. Qed.
+Print Assumptions C08_refines_queue_nohint.
 
 (* per method, per branch: from any state satisfying the invariant the call either succeeds,
    re-establishes the invariant and exposes exactly these bytes - or the bytes it needs do not fit
@@ -323,12 +359,17 @@ Example ex_remove_clamp :
   Ok (mkbuf (Some [Some 0; Some 2; Some 0; None]%Z) BOwn 0 0 3).
 Proof. reflexivity. Qed.
 
-(* sizes at the top of usize: resize / reserve / the capacity constructor with 2^64-1 (where capacity + 1
-   wraps), 2^64-2 and 2^63-1 end as failed allocations in model and reference; 2^63-1 is the first
-   capacity that does not fit *)
+(* sizes at the top of usize: resize / the capacity constructor with 2^64-1 (where capacity + 1 wraps),
+   2^64-2 and 2^63-1 end as failed allocations in model and reference; 2^63-1 is the first capacity that
+   does not fit; reserve with such an argument ends as a failed allocation in the model and is a no-op of
+   the reference *)
 Example ex_usize_max :
   run [] [ONew; OResize 0 usize_max] = Err AllocFail /\ spec_run [] [ONew; OResize 0 usize_max] = SUnsat /\
   run [] [ONewData [1;2;3]%Z; OReserve 0 usize_max] = Err AllocFail /\
+  (* the hint: the reference keeps the queue and goes on *)
+  spec_run [] [ONewData [1;2;3]%Z; OReserve 0 usize_max; OAppend 0 [4]%Z] = SOk ([known [1;2;3;4]%Z], [None;None;None]) /\
+  hint_unsat (OReserve 0 usize_max) = true /\ hint_unsat (OReserve 0 (max_bytes - 1)) = false /\
+  existsb hint_unsat ex_ops = false /\
   run [] [ONewCap usize_max] = Err AllocFail /\ spec_run [] [ONewCap usize_max] = SUnsat /\
   run [] [ONew; OResize 0 (usize_max - 1)] = Err AllocFail /\
   run [] [ONew; OResize 0 max_bytes] = Err AllocFail /\
